@@ -37,4 +37,30 @@ theorem forEachRev_append (xs ys : List α) (f : α → σ → σ) (s : σ) :
     forEachRev (xs ++ ys) f s = forEachRev xs f (forEachRev ys f s) := by
   simp [forEachRev]
 
+/-- a struct field whose type is outside the translated subset (a method that touches it is not translated) -/
+abbrev Opaque := Unit
+
+/-- `m[k]` on a map: the value stored under `k`, the zero value when absent (a Go map has one entry per key; on an
+association list the first one counts, as in Model/Access) -/
+def mapGet [BEq κ] [Inhabited ν] (m : List (κ × ν)) (k : κ) : ν :=
+  match m.find? (fun kv => kv.1 == k) with
+  | some kv => kv.2
+  | none => default
+
+/-- `xs[i]`. NOT represented: Go panics when `i` is out of range (no-panic clauses are the correspondence check's to
+establish, not the code-level tie's); here the zero value comes out -/
+def idx [Inhabited α] (xs : List α) (i : Int) : α := if i < 0 then default else xs.getD i.toNat default
+
+/-- `s[:i]` / `s[i:]`, with the same caveat (out-of-range bounds clamp instead of panicking) -/
+def sliceTo (xs : List α) (i : Int) : List α := xs.take i.toNat
+def sliceFrom (xs : List α) (i : Int) : List α := xs.drop i.toNat
+
+/-- `for i, x := range xs` -/
+def enum (xs : List α) : List (Int × α) := (xs.zipIdx).map fun p => ((p.2 : Int), p.1)
+
+/-- `for k, v := range m { … return r … }` with a body that changes nothing: the first `return` reached, if any.
+Go ranges over a map in an unspecified order; the list's order stands for whichever order the run took — a theorem that
+is to hold for the code must therefore not depend on it (the refinement theorems state where they do not) -/
+def forRangeRet (m : List (κ × ν)) (body : κ × ν → Option ρ) : Option ρ := m.findSome? body
+
 end Flamego.GoSem
